@@ -2,6 +2,7 @@
    usage: scen_callrcu PROG SCHED ; ops per thread:
      C<i> call_rcu(object i)   c<i> call_rcu(object i) whose callback re-enqueues object i+1   B rcu_barrier()
      ( ) read-side section     H create and install a per-thread helper   K uninstall and free the per-thread helper
+     F call_rcu_before_fork(); [the point at which fork() would copy the address space: the pending callbacks of every helper are printed]; call_rcu_after_fork_parent()
    Helper threads are created by the library (pthread_create is interposed) and scheduled like any other thread. */
 #define RCU_MEMBARRIER
 #include <stdlib.h>
@@ -41,6 +42,13 @@ static void body(int t){
 			/* resolving (and possibly creating) the helper is library code too, but naming its region must not be scheduled */
 			struct call_rcu_data *c=get_call_rcu_data(); vs_quiet_begin(); name_crd(c); vs_quiet_end();
 			vs_call("call_rcu",o->id); call_rcu(&o->h,cb); vs_ret("call_rcu",o->id); break; }
+		case 'F': { vs_call("beforefork",0); call_rcu_before_fork(); vs_ret("beforefork",0);
+			vs_quiet_begin();
+			for(int k=0;k<ncrd;k++){ char buf[256]; int l=0; buf[0]=0; struct cds_wfcq_node *n=crds[k]->cbs_head.node.next; int g=0;
+				while(n && g++<40){ struct rcu_head *rh=caa_container_of(n,struct rcu_head,next); if((char*)rh>=(char*)O && (char*)rh<(char*)(O+NO)) l+=sprintf(buf+l,"%d,",((struct obj*)rh)->id); else l+=sprintf(buf+l,"x,"); n=n->next; }
+				vs_note("forkq %d flags %lu : %s",k,crds[k]->flags,buf); }
+			vs_quiet_end(); vs_note("forkpoint");
+			vs_call("afterfork",0); call_rcu_after_fork_parent(); vs_ret("afterfork",0); break; }
 		case 'B': vs_call("barrier",0); rcu_barrier(); vs_ret("barrier",0); break;
 		case '(': vs_call("lock",depth); rcu_read_lock(); vs_ret("lock",0); depth++; break;
 		case ')': vs_call("unlock",depth); rcu_read_unlock(); vs_ret("unlock",0); depth--; break;
@@ -58,6 +66,7 @@ int main(int argc,char**argv){
 	rcu_init();
 	vs_region(&rcu_gp.ctr,8,"gp.ctr"); vs_region(&rcu_gp.futex,4,"gp.futex"); vs_region(&rcu_gp_lock,sizeof rcu_gp_lock,"gp_lock"); vs_region(&rcu_registry_lock,sizeof rcu_registry_lock,"reg_lock");
 	vs_region(&gp_waiters,sizeof gp_waiters,"waiters"); vs_region(&call_rcu_mutex,sizeof call_rcu_mutex,"crmutex"); vs_region(O,sizeof O,"O");
+	printf("- layout crd flags %d\n",(int)offsetof(struct call_rcu_data,flags));
 	for(int i=0;i<nprog;i++) vs_spawn(body);
 	vs_run(argv[2]);
 	for(int i=0;i<NO;i++) printf("- ran %d %d\n", i, O[i].ran);
